@@ -598,6 +598,8 @@ pub fn listen_config(mode: u64) -> ListenConfig {
     }
 }
 
+pub static FORCE_IP_LIMIT: std::sync::atomic::AtomicBool = std::sync::atomic::AtomicBool::new(false);
+
 pub fn base_config(mode: u64) -> ConfigBuilder {
     ConfigBuilder::new(listen_config(mode))
 }
@@ -642,6 +644,11 @@ pub fn main(args: &[String]) {
             _ => {}
         }
         i += 1;
+    }
+    // "c12ip": the histories of c12 with IP limiting always configured (monitor-only run of C16)
+    if focus == "c12ip" {
+        FORCE_IP_LIMIT.store(true, std::sync::atomic::Ordering::SeqCst);
+        focus = "c12".to_string();
     }
     let idents = make_idents(if focus == "c12" { 96 } else { 640 });
     if focus == "c14margin" {
